@@ -511,15 +511,16 @@ func c07drainedMarks(c *Ctx, sr *schedRoles) {
 			return nil
 		}
 		base, neg := condOf(iff.Cond)
-		if r2, _ := fr.Resolve(base); r2 != nil {
-			base = r2
+		rfr := fr
+		if r2, f2 := fr.Resolve(base); r2 != nil {
+			base, rfr = r2, f2 // (the comma-ok may have been handed to a helper: forward(item, opened, priority))
 		}
 		rr := recvs[base]
 		if rr == nil || (succ == 0) != neg {
 			return nil
 		}
 		// closed edge of rr
-		k := tableKeyOf(p.SymFrame(fr, rr.rs.Chan))
+		k := tableKeyOf(p.SymFrame(rfr, rr.rs.Chan))
 		ks := "?"
 		if k != nil {
 			ks = k.String()
